@@ -48,7 +48,7 @@ type HarnessSpec struct {
 	// instead of making the check inconclusive: used by the fixture harness, where a path is one concrete
 	// fixture and an oversized fixture says nothing about the property
 	ToleratedInconclusive []string `json:"tolerated_inconclusive,omitempty"`
-	MaxWallS              int      `json:"max_wall_s,omitempty"` // wall-clock cap per instance; default 1500 s quick, 6 h thorough
+	MaxWallS              int      `json:"max_wall_s,omitempty"` // wall-clock cap per instance; default 1500 s quick, 3000 s thorough
 }
 
 var toleratedNotes = map[string]int{}
@@ -233,7 +233,7 @@ func cmdCheck(args []string) {
 			if cfg.MaxWallS == 0 {
 				cfg.MaxWallS = 1500
 				if *tier == "thorough" {
-					cfg.MaxWallS = 6 * 3600
+					cfg.MaxWallS = 3000
 				}
 			}
 			rep, err := eng.Run(cfg)
